@@ -29,7 +29,7 @@ def run(b, tier, seed, t0):
     groups = {}
     for i in range(nprog):
         s = seed * 100207 + i
-        mask = r.choice([0x1f, 0x1f, 0x01, 0x02, 0x02, 0x04, 0x08, 0x10, 0x03, 0x1c])
+        mask = r.choice([0x3f, 0x3f, 0x01, 0x02, 0x02, 0x04, 0x08, 0x10, 0x03, 0x1c, 0x28, 0x20])
         args = [str(s), str(mask)]
         g = []
         # references
